@@ -21,6 +21,7 @@ from fedjax.aggregators import aggregator
 from fedjax.aggregators import walsh_hadamard
 from fedjax.core import dataclasses
 from fedjax.core import tree_util
+from fedjax.core import util
 from fedjax.core.federated_data import ClientId
 from fedjax.core.typing import PRNGKey, Params
 
@@ -276,7 +277,13 @@ def drive_pytree(params: Params) -> Params:
   new_leaves = []
   for leaf in leaves:
     # this uses the unbiased scale from section 4.2 in DRIVE's paper (Scale = norm2(R(x))**2 / norm1(R(x)) )
-    new_leaves.append(jnp.sum(jnp.power(leaf, 2)) * jnp.sign(leaf) / jnp.sum(jnp.abs(leaf)))
+    # Computed on leaf / max|leaf| so that large entries do not overflow when
+    # squared; an all-zero leaf stays zero (safe_div) instead of becoming 0 / 0.
+    max_abs = jnp.max(jnp.abs(leaf))
+    normalized = util.safe_div(leaf, max_abs)
+    scale = max_abs * util.safe_div(
+        jnp.sum(jnp.power(normalized, 2)), jnp.sum(jnp.abs(normalized)))
+    new_leaves.append(scale * jnp.sign(leaf))
   return jax.tree_util.tree_unflatten(tree_def, new_leaves)
 
 
